@@ -23,7 +23,7 @@ for nb in (1, 2):
 
 # HLPwrite: bounded block walk with creation of missing blocks/tables (slow: thorough tier)
 for nb, nt in [(1, 3), (2, 2)]:
-    ob(f"HLPwrite_nb{nb}_nt{nt}", ["C01", "C02", "C14", "C16"], entry="h_HLPwrite", enforce="HLPwrite", mode="bounded",
+    ob(f"HLPwrite_nb{nb}_nt{nt}", ["C01"], entry="h_HLPwrite", enforce="HLPwrite", mode="bounded",
        bound=f"<= {nt} block tables (existing or created) of number_blocks == {nb}, first_length 0..2, block_length 1..2, posn <= 6, "
              f"length -1..6 (symbolic), missing blocks arbitrary, faults injected at every sub-access",
        unwind=5, cex_unwind=5, timeout=2400, tier="thorough", flags=["--sat-solver", "cadical"], backend="cbmc SAT (cadical)",
@@ -34,14 +34,14 @@ CAD = dict(flags=["--sat-solver", "cadical"], backend="cbmc SAT (cadical)")
 for case, txt, tier in [(1, "valid arguments, writable file, no fault: the conversion has to succeed", "quick"),
                         (2, "file opened read-only", "quick"),
                         (0, "all arguments, read-only or writable file, faults injected at every H-layer call", "quick")]:
-    ob(f"HLconvert_c{case}", ["C13", "C14", "C01", "C02"], entry="h_HLconvert", enforce="HLconvert", mode="bounded",
+    ob(f"HLconvert_c{case}", ["C13", "C14"] if case == 2 else ["C13"], entry="h_HLconvert", enforce="HLconvert", mode="bounded",
        bound=f"number_blocks == 2 (HLInewlink fill loop unwound); block_length, element offset/length, position symbolic; {txt}",
        unwind=5, cex_unwind=5, tier=tier, defines=["H4V_NBC=2", f"H4V_CASE={case}"], **CAD, **HB)
 
 # HLgetdatainfo: raw block locations (C02)
 for case, txt in [(1, "arrays hold every data block (or no arrays); no fault"), (2, "arrays smaller than the element; no fault"),
                   (3, "arrays hold every data block (or no arrays); sub-access faults injected")]:
-    ob(f"HLgetdatainfo_c{case}", ["C02"] + (["C16"] if case == 3 else []), entry="h_HLgetdatainfo", enforce="HLgetdatainfo", mode="bounded",
+    ob(f"HLgetdatainfo_c{case}", ["C02"], entry="h_HLgetdatainfo", enforce="HLgetdatainfo", mode="bounded",
        bound=f"<= 2 block tables of number_blocks == 2 (<= 4 data blocks), info_count <= 9; {txt}",
        unwind=6, cex_unwind=6, timeout=900, defines=["H4V_NBC=2", f"H4V_CASE={case}"], **HB)
 
@@ -59,11 +59,14 @@ HX = dict(unit="hextelt_u.c", file="hdf/src/hextelt.c", objbits=10, cex_unwind=4
                    "HEpush/HEreport/HEclear (stubs/h4v_err.h)"])
 ob("HXPseek", ["C01"], entry="h_HXPseek", enforce="HXPseek", **HX)
 for case, txt in [(1, "position inside the element, posn + length <= INT32_MAX"), (2, "position inside the element, posn + length > INT32_MAX"),
-                  (3, "position exactly at the end"), (4, "position beyond the end (HXPseek allows it)")]:
-    ob(f"HXPread_c{case}", ["C01", "C16"] + (["C20"] if case == 2 else []), entry="h_HXPread", enforce="HXPread",
-       region=txt, defines=[f"H4V_CASE={case}"], **HX)
+                  (3, "position exactly at the end"), (4, "position beyond the end (HXPseek allows it)"),
+                  (5, "as 1, external file (re)opened first (HXIbuildfilename by contract: replay not meaningful)")]:
+    ob(f"HXPread_c{case}", ["C01"], entry="h_HXPread", enforce="HXPread", mode="bounded",
+       bound=f"loop-free, all integers unbounded; input region: {txt}; caller's buffer <= 4096 bytes", defines=[f"H4V_CASE={case}"], **HX)
 for case, txt in [(1, "no fault, stream held is writable, write ends at a representable offset"),
                   (2, "stream held was opened read-only and/or stdio faults (retry path)"),
-                  (3, "faults of the header update in the HDF file only"), (4, "write would end beyond 2^31-1")]:
-    ob(f"HXPwrite_c{case}", ["C01", "C14", "C16"] + (["C20"] if case == 4 else []), entry="h_HXPwrite", enforce="HXPwrite",
-       region=txt, defines=[f"H4V_CASE={case}"], **HX)
+                  (3, "faults of the header update in the HDF file only"), (4, "write would end beyond 2^31-1"),
+                  (5, "as 1, external file (re)opened first (HXIbuildfilename by contract: replay not meaningful)")]:
+    ob(f"HXPwrite_c{case}", ["C01", "C14"], entry="h_HXPwrite", enforce="HXPwrite", mode="bounded",
+       bound=f"loop-free, all integers unbounded; input region: {txt}; caller's buffer <= 4096 bytes; at most two streams per call",
+       defines=[f"H4V_CASE={case}"], **HX)
